@@ -23,11 +23,13 @@ git -C /repo worktree remove --force $WT
 echo "demo with patch: exit=$RES_WITH ; without: exit=$RES_WITHOUT"
 SUITE=$(/tmp/jc-verify-run.sh $SD/patch.diff 2>&1 | grep RESULT | head -1)
 echo "suite: $SUITE"
-# run the check against the patched /repo
-cd /repo && git stash -q 2>/dev/null; STASHED=$?
-git apply $SD/patch.diff
-cd /verif && python3 bin/vcheck $PID --tier quick > /tmp/seedcheck-$$.log 2>&1; CRC=$?
-cd /repo && git checkout -q -- . ; [ $STASHED -eq 0 ] && git stash pop -q 2>/dev/null
+# run the check against a scratch copy of /repo/include with the patch applied (equivalent to git -C /repo apply; run;
+# git -C /repo checkout -- . ; the copy keeps /repo untouched while other work reads it)
+SC=/tmp/seed-include-$$
+rm -rf $SC; mkdir -p $SC; cp -r /repo/include $SC/include
+(cd $SC && patch -p1 -s < $SD/patch.diff) || echo "apply to copy failed"
+cd /verif && VERIF_REPO_INCLUDE=$SC/include python3 bin/vcheck $PID --tier quick > /tmp/seedcheck-$$.log 2>&1; CRC=$?
+rm -rf $SC
 grep -E "^VIOLATION|^include" /tmp/seedcheck-$$.log | head -4
 echo "check exit=$CRC"
 cp $SD/patch.diff $OUT/patch.diff; cp $SD/demo.cpp $OUT/demo.cpp; [ -f $SD/notes.md ] && cp $SD/notes.md $OUT/notes.md
@@ -38,7 +40,7 @@ json.dump({"property": "$PID", "name": "$NAME", "demo_exit_with_patch": "$RES_WI
   "detected": $CRC == 1,
   "ran": ["git apply patch.diff in a scratch worktree; g++ -std=c++17 -O1 -I<wt>/include demo.cpp && ./demo (with and without the patch)",
           "/tmp/jc-verify-run.sh patch.diff (apply in a pre-built tree, rebuild unit_tests, ctest, revert)",
-          "git -C /repo apply patch.diff; python3 bin/vcheck $PID --tier quick; git -C /repo checkout -- ."],
+          "patch applied to a scratch copy of /repo/include; VERIF_REPO_INCLUDE=<copy> python3 bin/vcheck $PID --tier quick"],
   "needs_to_manifest": open("$SD/notes.md").read()[:1500] if __import__('os').path.exists("$SD/notes.md") else ""},
   open("$OUT/meta.json","w"), indent=1)
 PY
